@@ -9,6 +9,7 @@ import (
 	"fmt"
 	"math/big"
 	"os"
+	"sync"
 
 	"github.com/consensys/gnark/constraint"
 	"github.com/consensys/gnark/test"
@@ -47,10 +48,18 @@ func edge(g *gen.G, p *big.Int) *big.Int {
 func main() {
 	seed := flag.Int64("seed", 1, "seed")
 	n := flag.Int("n", 100, "cases")
+	par := flag.Int("parallel", 8, "cases evaluated concurrently (circuit definitions overlap in time)")
 	flag.Parse()
 	g := gen.New(*seed)
 	var ccs2, ccs1 constraint.ConstraintSystem
+	ccs1, _ = r1csx.Compile(&circuits.Poseidon1Circuit{})
+	ccs2, _ = r1csx.Compile(&circuits.Poseidon2Circuit{})
 	stat := map[string]int{}
+	type result struct{ line, res string }
+	results := make([]result, *n)
+	var wg sync.WaitGroup
+	sem := make(chan struct{}, *par)
+	var mu sync.Mutex
 	for c := 0; c < *n; c++ {
 		p := fields[0]
 		if g.Chance(1, 4) {
@@ -58,66 +67,77 @@ func main() {
 		}
 		a, b := edge(g, p), edge(g, p)
 		one := g.Chance(1, 3)
-		var want *big.Int
-		if p == gen.BN254 {
-			var err error
-			if one {
-				want, err = iden3.Hash([]*big.Int{a})
+		c := c
+		wg.Add(1)
+		sem <- struct{}{}
+		go func() {
+			defer wg.Done()
+			defer func() { <-sem }()
+			var want *big.Int
+			if p == gen.BN254 {
+				var err error
+				if one {
+					want, err = iden3.Hash([]*big.Int{a})
+				} else {
+					want, err = iden3.Hash([]*big.Int{a, b})
+				}
+				if err != nil {
+					panic(err)
+				}
+			} else if one {
+				want = ref.Hash1(p, a)
 			} else {
-				want, err = iden3.Hash([]*big.Int{a, b})
+				want = ref.Hash2(p, a, b)
 			}
-			if err != nil {
-				panic(err)
-			}
-		} else if one {
-			want = ref.Hash1(p, a)
-		} else {
-			want = ref.Hash2(p, a, b)
-		}
-		wrong := new(big.Int).Mod(new(big.Int).Add(want, big.NewInt(1)), p)
-		res := want.String()
-		var line string
-		if one {
-			line = fmt.Sprintf("h1\t%s\t%s", p, a)
-			if test.IsSolved(&circuits.Poseidon1Circuit{}, &circuits.Poseidon1Circuit{A: a, Out: want}, p) != nil {
-				res = "gadget-rejects-reference(test-engine)"
-			} else if test.IsSolved(&circuits.Poseidon1Circuit{}, &circuits.Poseidon1Circuit{A: a, Out: wrong}, p) == nil {
-				res = "gadget-accepts-wrong-output(test-engine)"
-			} else if p == gen.BN254 {
-				if ccs1 == nil {
-					ccs1, _ = r1csx.Compile(&circuits.Poseidon1Circuit{})
-				}
-				if ccs1 != nil {
-					if r1csx.Solve(ccs1, &circuits.Poseidon1Circuit{A: a, Out: want}, nil) != nil {
-						res = "gadget-rejects-reference(r1cs)"
-					} else if r1csx.Solve(ccs1, &circuits.Poseidon1Circuit{A: a, Out: wrong}, nil) == nil {
-						res = "gadget-accepts-wrong-output(r1cs)"
+			wrong := new(big.Int).Mod(new(big.Int).Add(want, big.NewInt(1)), p)
+			res := want.String()
+			var line string
+			if one {
+				line = fmt.Sprintf("h1\t%s\t%s", p, a)
+				if test.IsSolved(&circuits.Poseidon1Circuit{}, &circuits.Poseidon1Circuit{A: a, Out: want}, p) != nil {
+					res = "gadget-rejects-reference(test-engine)"
+				} else if test.IsSolved(&circuits.Poseidon1Circuit{}, &circuits.Poseidon1Circuit{A: a, Out: wrong}, p) == nil {
+					res = "gadget-accepts-wrong-output(test-engine)"
+				} else if p == gen.BN254 {
+					if ccs1 != nil {
+						if r1csx.Solve(ccs1, &circuits.Poseidon1Circuit{A: a, Out: want}, nil) != nil {
+							res = "gadget-rejects-reference(r1cs)"
+						} else if r1csx.Solve(ccs1, &circuits.Poseidon1Circuit{A: a, Out: wrong}, nil) == nil {
+							res = "gadget-accepts-wrong-output(r1cs)"
+						}
 					}
 				}
-			}
-			stat["h1"]++
-		} else {
-			line = fmt.Sprintf("h2\t%s\t%s\t%s", p, a, b)
-			if test.IsSolved(&circuits.Poseidon2Circuit{}, &circuits.Poseidon2Circuit{A: a, B: b, Out: want}, p) != nil {
-				res = "gadget-rejects-reference(test-engine)"
-			} else if test.IsSolved(&circuits.Poseidon2Circuit{}, &circuits.Poseidon2Circuit{A: a, B: b, Out: wrong}, p) == nil {
-				res = "gadget-accepts-wrong-output(test-engine)"
-			} else if p == gen.BN254 {
-				if ccs2 == nil {
-					ccs2, _ = r1csx.Compile(&circuits.Poseidon2Circuit{})
-				}
-				if ccs2 != nil {
-					if r1csx.Solve(ccs2, &circuits.Poseidon2Circuit{A: a, B: b, Out: want}, nil) != nil {
-						res = "gadget-rejects-reference(r1cs)"
-					} else if r1csx.Solve(ccs2, &circuits.Poseidon2Circuit{A: a, B: b, Out: wrong}, nil) == nil {
-						res = "gadget-accepts-wrong-output(r1cs)"
+				mu.Lock()
+				stat["h1"]++
+				mu.Unlock()
+			} else {
+				line = fmt.Sprintf("h2\t%s\t%s\t%s", p, a, b)
+				if test.IsSolved(&circuits.Poseidon2Circuit{}, &circuits.Poseidon2Circuit{A: a, B: b, Out: want}, p) != nil {
+					res = "gadget-rejects-reference(test-engine)"
+				} else if test.IsSolved(&circuits.Poseidon2Circuit{}, &circuits.Poseidon2Circuit{A: a, B: b, Out: wrong}, p) == nil {
+					res = "gadget-accepts-wrong-output(test-engine)"
+				} else if p == gen.BN254 {
+					if ccs2 != nil {
+						if r1csx.Solve(ccs2, &circuits.Poseidon2Circuit{A: a, B: b, Out: want}, nil) != nil {
+							res = "gadget-rejects-reference(r1cs)"
+						} else if r1csx.Solve(ccs2, &circuits.Poseidon2Circuit{A: a, B: b, Out: wrong}, nil) == nil {
+							res = "gadget-accepts-wrong-output(r1cs)"
+						}
 					}
 				}
+				mu.Lock()
+				stat["h2"]++
+				mu.Unlock()
 			}
-			stat["h2"]++
-		}
-		stat["field:"+p.String()[:min(6, len(p.String()))]]++
-		fmt.Fprintf(gen.Out, "%s\t=>\t%s\n", line, res)
+			mu.Lock()
+			stat["field:"+p.String()[:min(6, len(p.String()))]]++
+			mu.Unlock()
+			results[c] = result{line, res}
+		}()
+	}
+	wg.Wait()
+	for _, r := range results {
+		fmt.Fprintf(gen.Out, "%s\t=>\t%s\n", r.line, r.res)
 	}
 	fmt.Fprintf(os.Stderr, "{")
 	first := true
